@@ -115,6 +115,14 @@ func (c *Ctx) Fn(ix *PkgIndex, rule, name string) *FuncInfo {
 		f = t
 		c.Analysed(f)
 	}
+	// … and a method that selects a shared implementation by a constant argument is judged on that implementation
+	// specialised to the argument
+	if c.FollowDelegates {
+		if t, _ := ix.delegateUnder(f); t != nil && t != f {
+			f = t
+			c.Analysed(f)
+		}
+	}
 	return f
 }
 
@@ -199,7 +207,7 @@ func runProp(id, tier, verif, replay string) (code int) {
 		}
 		run.Note(fmt.Sprintf("second configuration GOARCH=386: %d obligations", len(r2.obs)))
 		// checker self-test over the recorded variants (in-memory overlays)
-		st := runSelfTest(pd, verif)
+		st := runSelfTest(pd, verif, run.pkgs)
 		run.selftest = st
 		for _, s := range st {
 			if s.Status == "MISSED" || s.Status == "FALSE-ALARM" {
